@@ -162,6 +162,7 @@ variables
    seqcnt = [ii \in Insts |-> [mm \in Machines |-> 0]],
    hist = [ii \in Insts |-> InitHist],
    exc = FALSE, ret = 0, l = 1, cbn = 0, ncalls = 0, nextp = 1, budget = 0,
+   hevs = <<>>,                                                 \* stack of the trigger types of the rows being executed (see HEv)
    gvmemo = [gg \in Def.guards |-> "u"],
    gvc = [gg \in Def.condguards |-> FALSE],                     \* guard values that decide conditional deferral (backmp11 is_event_deferred), fixed per call
    obs = <<>>, wasreset = FALSE, path = <<>>, nothrow = FALSE,
@@ -232,12 +233,16 @@ define {
         st = sx \/ (IsSub(mm, st) /\ IsActiveM(ii, st, sx))
   \* backmp11 visit(visitor) (active states, recursive): per region the active state, then - if it is a submachine - its active states
   RECURSIVE VisitSeq(_, _, _)
-  VisitSeq(ii, mm, rr) == IF ~running[ii][mm] \/ rr > NReg(mm) THEN <<>>
+  \* (back / back11 visit_current_states() does not ask whether a machine is running)
+  VisitSeq(ii, mm, rr) == IF (IsM /\ ~running[ii][mm]) \/ rr > NReg(mm) THEN <<>>
         ELSE LET st == active[ii][mm][rr] IN <<st>> \o (IF IsSub(mm, st) THEN VisitSeq(ii, st, 1) ELSE <<>>) \o VisitSeq(ii, mm, rr + 1)
   IsaVec(ii) == [k \in 1..Len(Def.allstates) |-> IsActiveM(ii, Def.root, Def.allstates[k])]
   FlagVec(ii, mm) == [k \in 1..(2 * Len(Def.flags)) |-> IF k <= Len(Def.flags) THEN FlagOr(ii, mm, Def.flags[k])
                                                           ELSE FlagAnd(ii, mm, Def.flags[k - Len(Def.flags)])]
   UseHist(mm, et) == HistKind(mm) = "always" \/ (HistKind(mm) = "shallow" /\ et \in HistEvents(mm))
+  \* the event type a history policy sees is the static type the running row hands to the entry / exit cascade: the row's trigger
+  \* (a base class of the occurrence's type, or the Kleene type), not the dynamic type of the occurrence
+  HEv(et) == IF hevs = <<>> THEN et ELSE Head(hevs)
   EntryActive(ii, mm, named, et) ==
        [rr \in 1..NReg(mm) |->
             IF \E nn \in 1..Len(named) : RegOf(mm, named[nn]) = rr
@@ -350,7 +355,7 @@ X6: if (~exc) {
        lastcfg[x_i][x_s] := active[x_i][x_s];
        \* history_exit / history_impl::on_exit; back: the history policy decides about pending deferred events
        if (HistKind(x_s) # "none") { hist[x_i][x_s].last := active[x_i][x_s]; };
-       if (IsB /\ ~UseHist(x_s, x_occ.t)) { dropped[x_i] := dropped[x_i] \cup QPayloads(dq[x_i][x_s]); dq[x_i][x_s] := <<>>; };
+       if (IsB /\ ~UseHist(x_s, HEv(x_occ.t))) { dropped[x_i] := dropped[x_i] \cup QPayloads(dq[x_i][x_s]); dq[x_i][x_s] := <<>>; };
     };
 X7: return;
 }
@@ -378,8 +383,8 @@ N2: processing[n_i][n_s] := TRUE;
     running[n_i][n_s] := TRUE;
     \* back: every region gets its history / initial state first; the states named by an explicit entry, fork or entry point are set
     \* after the machine's own entry behaviour (N3)
-    if (IsB) { active[n_i][n_s] := EntryActive(n_i, n_s, <<>>, n_occ.t); }
-    else if (Len(n_named) # NReg(n_s) /\ ~UseHist(n_s, n_occ.t)) {
+    if (IsB) { active[n_i][n_s] := EntryActive(n_i, n_s, <<>>, HEv(n_occ.t)); }
+    else if (Len(n_named) # NReg(n_s) /\ ~UseHist(n_s, HEv(n_occ.t))) {
        \* backmp11 without (matching) history: events pending from the previous activation are dropped before the machine's own entry
        \* behaviour runs; events raised by the entry behaviours of this activation are kept
        dropped[n_i] := dropped[n_i] \cup PoolPayloads(pool[n_i][n_s]); pool[n_i][n_s] := <<>>;
@@ -388,7 +393,7 @@ N2: processing[n_i][n_s] := TRUE;
 N3: if (exc) { processing[n_i][n_s] := FALSE; return; }     \* the flag is reset when an entry behaviour throws
     else {
        if (IsM) {
-          active[n_i][n_s] := EntryActive(n_i, n_s, n_named, n_occ.t);
+          active[n_i][n_s] := EntryActive(n_i, n_s, n_named, HEv(n_occ.t));
        } else {
           active[n_i][n_s] := [rr \in 1..NReg(n_s) |->
                 IF \E nn \in 1..Len(n_named) : RegOf(n_s, n_named[nn]) = rr
@@ -546,9 +551,11 @@ C1: while (ch_k <= Len(ch_cands) /\ ~ch_done) {
           defd[ch_i] := defd[ch_i] \cup {ch_occ.p}; defseq[ch_i] := Append(defseq[ch_i], [p |-> ch_occ.p, t |-> ch_occ.t]);
           ret := 4;
        } else {
+          hevs := <<IF RowOf(ch_m, ch_cands[ch_k]).ev \in {"any", "anyu"} THEN "any" ELSE RowOf(ch_m, ch_cands[ch_k]).ev>> \o hevs;
           call RowExec(ch_i, ch_m, ch_r, ch_cands[ch_k], ch_occ);
        };
-C2:    if (exc) { return; }
+C2:    if (ch_cands[ch_k].c \notin {"fwd", "defer"}) { hevs := Tail(hevs); };
+C2b:   if (exc) { return; }
        else {
           if (Consumed(ret)) {
              ch_done := TRUE;
@@ -852,7 +859,11 @@ M1:    if (Mode = "trace" /\ ~wasreset) {
                          /\ \A mm \in ActiveTree(lastcall.i, Def.root) : CurLine.st[mm] = Ids(mm, active[lastcall.i][mm])
                          /\ CurLine.fl = FlagVec(lastcall.i, Def.root)
                          /\ (CurLine.isa = <<>> \/ CurLine.isa = IsaVec(lastcall.i))
-                         /\ (IsB \/ CurLine.vis = VisitSeq(lastcall.i, Def.root, 1))
+                         \* active-state visitor: backmp11 visit(), back / back11 visit_current_states() ("-": the driver's front-end has no visitor)
+                         /\ (CurLine.vis = <<"-">> \/ CurLine.vis = VisitSeq(lastcall.i, Def.root, 1))
+                         \* back / back11 get_state_by_id(id) for the id of every region of every active machine names the active state
+                         /\ (DOMAIN CurLine.gs = {} \/ (/\ DOMAIN CurLine.gs = ActiveTree(lastcall.i, Def.root)
+                                                        /\ \A mm \in ActiveTree(lastcall.i, Def.root) : CurLine.gs[mm] = active[lastcall.i][mm]))
                          /\ \A mm \in ActiveTree(lastcall.i, Def.root) :
                                CurLine.dt[mm] = <<encnt[lastcall.i][OwnKey(mm)]>> \o [kk \in 1..Len(MD(mm).dorder) |-> encnt[lastcall.i][<<mm, MD(mm).dorder[kk]>>]]
                          /\ \A mm \in ActiveTree(lastcall.i, Def.root) :
